@@ -189,6 +189,8 @@ pub fn run(ctx: &Ctx, rep: &mut Report) {
         rep.count_n(&format!("t{}:states", t), n);
         rep.require(&format!("t{}:states", t));
     }
+    // communication state of messages sitting at the front of buffers of 2^31 / 2^32 bits (+ up to 70 bytes)
+    super::c14::giant_buffer_probe(ctx, rep, PID, crate::gen::pm(&[16]), &mut r);
     rep.extra.insert("exhaustive_states".into(), J::Bool(true));
     rep.sample(3, || {
         let mut o = J::obj();
